@@ -257,6 +257,8 @@ func TestVerif_C18(t *testing.T) {
 	admin := c18BuildAdmin(env)
 	c18AdminSweep(res, admin, "start-up", "", "")
 	attrCases := &c18AttrCases{}
+	partCases := &c18PartCases{}
+	innerOf := map[string]string{}
 	routes := verifRouteTable()
 	harvest := c18LoadHarvest(t)
 	// every parameter name any handler of the current tree reads (plus a few names no handler reads: a field
@@ -537,6 +539,9 @@ func TestVerif_C18(t *testing.T) {
 		if isHTML {
 			problems = c18Scan(body)
 		}
+		if in, ok := innerOf[payload]; ok && isHTML {
+			partCases.collect(res, b.method+" "+route.Path+" as "+credName+" (base "+b.name+") parameter "+param, body, in, wrapperOf[payload], payload)
+		}
 		modeS := ""
 		if mode.param != "" {
 			modeS = mode.param + "=" + mode.value
@@ -634,6 +639,7 @@ func TestVerif_C18(t *testing.T) {
 							for _, pl := range wrapIn {
 								for _, w := range c18Wrappers(pl) {
 									wrapperOf[w.text] = w.wrapper
+									innerOf[w.text] = pl
 									res.bump("focused_probes")
 									hsend(route, b, cn, c18Mode{}, pm, w.text)
 								}
@@ -745,6 +751,7 @@ func TestVerif_C18(t *testing.T) {
 								continue // quick: every wrapper with the blank payload, every third with the others
 							}
 							wrapperOf[w.text] = w.wrapper
+							innerOf[w.text] = pl
 							res.bump("wrapped_probes")
 							hsend(route, b, cn, c18Mode{}, pm, w.text)
 						}
@@ -1037,6 +1044,8 @@ func TestVerif_C18(t *testing.T) {
 	sb.WriteString("Definition ebad (c : N * bs * bs) : bool :=\n  let '(k, s, out) := c in\n  let cx := if k =? 0 then CtxText else if k =? 1 then CtxAttrQuoted else CtxAttrUnquoted in\n  negb (bs_eqb (render_field cx s) out).\n")
 	sb.WriteString("Definition c18_escaper_mismatches := Eval vm_compute in mismatches ebad ecases.\nPrint c18_escaper_mismatches.\nDefinition c18_necases := Eval vm_compute in length ecases.\nPrint c18_necases.\n")
 	sb.WriteString(attrCases.coq())
+	sb.WriteString(partCases.coq())
+	ioutil.WriteFile(filepath.Join(verifOut(), "CasesC18p.idx"), []byte(strings.Join(partCases.idx, "\n")), 0644)
 	ioutil.WriteFile(filepath.Join(verifOut(), "CasesC18a.idx"), []byte(strings.Join(attrCases.idx, "\n")), 0644)
 	if err := ioutil.WriteFile(filepath.Join(verifOut(), "CasesC18.v"), []byte(sb.String()), 0644); err != nil {
 		t.Fatal(err)
